@@ -66,4 +66,20 @@ def collect(h):
     h.find(rel2, r"case \*ViewStmt:\s*\n\s*analyseViewRefFields\(v\.Items, ictx\)", "analyse: pass 6")
     items.append(("parser_descriptor_refs_analysed", "bool",
                   "true" if re.search(r"case \*WsDescriptorStmt:\s*\n(\s*//[^\n]*\n)*\s*analyseRefFields\(v\.Items, ictx, appdef\.TypeKind_CDoc\)", body) else "false", rel2 + " analyse (pass 6)"))
+    # F30: are the nested tables of an inherited item list named in the package of the inherited table?
+    body = h.func_body(rel, r"^func \(c \*buildContext\) fillTable\(", "fillTable")
+    own = "c.fillTable(table.inherits.pkg, table.inherits.table)" in body
+    heir = "c.fillTable(schema, table.inherits.table)" in body
+    if own == heir:
+        raise h.Missing(f"{rel}: fillTable: cannot decide in which package inherited nested tables are named")
+    items.append(("parser_inherited_nested_in_own_package", "bool", "true" if own else "false", rel + " fillTable"))
+    # F31: does checkChain forget an INHERITS reference on the way back up (path) or keep it (visited set)?
+    body = h.func_body(rel2, r"^func analyzeWorkspace\(", "analyzeWorkspace")
+    h.find(rel2, r"if slices\.Contains\(chain, qn\) \{\s*\n\s*return ErrCircularReferenceInInherits", "analyzeWorkspace.checkChain")
+    items.append(("parser_diamond_below_heir_accepted", "bool", "true" if re.search(r"chain\s*=\s*chain\[:len\(chain\)-1\]", body) else "false", rel2 + " analyzeWorkspace.checkChain"))
+    # F32: does the column check of GRANT ... ON TABLE walk the tables the table inherits?
+    m = re.search(r"checkColumn := func\(column Ident\) error \{(.*?)\n\t\t\}\n", h.src(rel2), re.S)
+    if not m:
+        raise h.Missing(f"{rel2}: cannot locate checkColumn")
+    items.append(("parser_grant_inherited_columns", "bool", "true" if re.search(r"t\s*=\s*t\.inherits\.table", m.group(1)) else "false", rel2 + " checkColumn (GRANT ... ON TABLE)"))
     return items
